@@ -837,7 +837,7 @@ def wl_names(run, rng, idx):
             ews = (True,)
         else:
             names = ["a", "b", "ab"]
-            alphabet = ("a", "b", "ab", "AB")
+            alphabet = ("ab", "a", "AB", "b")      # 'ab' is always a label
             rep = representation.Representation()
             ews = (True, False)
         mats = fl.generator_matrices(rng, names, dim, "float")
@@ -966,13 +966,13 @@ def wl_free_names(run, rng, idx):
 
 
 WORKLOADS = [
-    Workload("dense-sample", wl_dense_sample, quick=45, thorough=0),
+    Workload("dense-sample", wl_dense_sample, quick=32, thorough=0),
     Workload("dense-all", wl_dense_all, quick=0, thorough=(DENSE_TOTAL + 7) // 8),
-    Workload("random", wl_random, quick=50, thorough=2400),
-    Workload("multiple-labels", wl_multiple, quick=20, thorough=400),
-    Workload("generator-names", wl_names, quick=18, thorough=400),
+    Workload("random", wl_random, quick=36, thorough=2400),
+    Workload("multiple-labels", wl_multiple, quick=14, thorough=400),
+    Workload("generator-names", wl_names, quick=12, thorough=400),
     Workload("builtin", wl_builtin, quick=20, thorough=100),
-    Workload("free-group", wl_free, quick=15, thorough=120),
+    Workload("free-group", wl_free, quick=9, thorough=120),
     Workload("free-group-names", wl_free_names, quick=2, thorough=8),
 ]
 EXHAUSTIVE = {"quick": False, "thorough": False}
